@@ -9,8 +9,8 @@
 
    Scope notes (see the header of Bracket.v):
      - faults: every fault site of Sched.is_site EXCEPT a failure of flock itself
-       ([Acquire LFile _]); the model's [Release LFile] is not owner-aware, that case stays with
-       the C13 menu sweep;
+       ([Acquire LFile _]) — in THIS file; the same theorems with the flock among the faults
+       are proved in FlockFaults.v and restated in props/C08flock.v;
      - the start world holds no lock and its reference files are typed ([refs_typed], implied by
        Spec.well_typed, established by every sequential history from the empty store, and
        re-established by every run).  [C08_untyped_world_witness] shows the hypothesis is needed:
